@@ -481,3 +481,8 @@ M("C01", "anticipated-impact-to-frame-end", "fords/shock_simulators.py", "    la
 M("C02", "lagged-state-read-one-more-back", "fords/systems.py", "            xi_lagged = _get_vector(descriptor, data_array_lagged, tokens, logly, column_offset, )", "            xi_lagged = _get_vector(descriptor, data_array_lagged, tokens, logly, column_offset-1, )", "C02-R6")
 T("C02", "twin-lag-in-offset-not-array", "simultaneous/main.py", "shift_in_first_column=min_shift-1, )", "shift_in_first_column=min_shift-2+1, )")
 M("C04", "populate-logly-endogenous-only", "sources.py", "            if qty.kind not in QuantityKind.LOGGABLE_VARIABLE:", "            if qty.kind not in QuantityKind.ENDOGENOUS_VARIABLE:", "C04-R7")
+M("C14", "hp-stencil-minus-one", H, "            K[i,i+1] = -2", "            K[i,i+1] = -1", "C14-R4")
+M("C14", "hp-level-constraint-column-off", H, "            extra_variants[j, i] = 1", "            extra_variants[j-1, i] = 1", "C14-R4")
+M("C14", "hp-change-constraint-sign", H, "            extra_rows[i, [j-1, j]] = (-1, 1)", "            extra_rows[i, [j-1, j]] = (1, -1)", "C14-R4")
+M("C14", "hp-extra-rows-not-counted", H, "        self._F = _np.hstack((self._F, extra_variants, ))\n        self._num_extra_rows += num_constraints", "        self._F = _np.hstack((self._F, extra_variants, ))", "C14-R4")
+T("C14", "twin-hp-stencil-one-loop", H, "        for i in range(self._num_periods-2):\n            K[i,i] = 1\n            K[i,i+2] = 1\n        for i in range(self._num_periods-2):\n            K[i,i+1] = -2", "        for i in range(self._num_periods-2):\n            K[i,i] = 1\n            K[i,i+1] = -2\n            K[i,i+2] = 1")
